@@ -69,10 +69,23 @@ def build(env, suites, per_cell):
                 if aead != 0xFFFF and rnd.random() < 0.5:
                     # the last thing the receiver sees before it is dropped is a rejected delivery
                     s.call("open", ctx="R", api="inplace", ct=g.rbytes(8), tag=g.rbytes(16), aad="-")
+                s.call("liveness", ctx="S")
+                s.call("liveness", ctx="R")
                 s.call("ledger", mark="before_drops")
                 s.call("drop", ctx="S", scan=1, obj="context", role="S")
                 s.call("drop", ctx="R", scan=1, obj="context", role="R")
                 s.call("ledger", mark="after_drops")
+                # a second pair, boxed and dropped the ordinary way while the freed-memory monitor is armed
+                s.call("setup_s", mode=mode, pkr="$kR.pk", info=info, rng=g.rbytes(nsk), out="HS", **sa)
+                s.call("setup_r", mode=mode, skr="$kR.sk", enc="$HS.enc", info=info, out="HR", **ra)
+                s.call("peek", ctx="HS")
+                s.call("peek", ctx="HR")
+                s.call("export", ctx="HS", exctx="-", len=32)
+                s.call("export", ctx="HR", exctx="-", len=32)
+                s.call("liveness", ctx="HS")
+                s.call("liveness", ctx="HR")
+                s.call("drop", ctx="HS", scan=2, obj="context_heap", role="S")
+                s.call("drop", ctx="HR", scan=2, obj="context_heap", role="R")
     return cw
 
 
@@ -125,6 +138,8 @@ def build_directed(env):
         s.call("ledger", mark="after_setup_s")
         s.call("setup_r", mode=0, skr="$kR.sk", enc="$S.enc", info="-", out="R")
         s.call("ledger", mark="after_setup_r")
+        s.call("liveness", ctx="S")
+        s.call("liveness", ctx="R")
         s.call("ledger", mark="before_drops")
         s.call("drop", ctx="S", scan=1, obj="context", role="S")
         s.call("drop", ctx="R", scan=1, obj="context", role="R")
@@ -154,12 +169,44 @@ def build_directed(env):
             s.call("ledger", mark="after_setup_s")
             s.call("setup_r", mode=0, skr="$kR.sk", enc="$S.enc", info=info, out="R")
             s.call("ledger", mark="after_setup_r")
+            s.call("liveness", ctx="S")
+            s.call("liveness", ctx="R")
             s.call("ledger", mark="before_drops")
             s.call("drop", ctx="S", scan=1, obj="context", role="S")
             s.call("drop", ctx="R", scan=1, obj="context", role="R")
             s.call("ledger", mark="after_drops")
             found["%s:%s" % (what, c)] = True
     return cw, sorted(found)
+
+
+def shipping_build_text(sessions):
+    """Second pass on the build a user ships (guard off, no debug assertions): without the ledger hook
+    nothing inside the crate reads the wiped bytes, so a wipe made of plain stores can be removed by the
+    optimizer where the memory is about to be freed.  Only the boxed contexts dropped under the freed-memory
+    monitor are replayed; what to look for (base nonce, exporter secret of each context) is taken from the
+    first pass's log, the sessions being deterministic."""
+    out = []
+    for s in sessions:
+        secrets = {}
+        for op in s.ops:
+            if op.op in ("setup_s", "setup_r") and op.ok() and "es" in op.ret:
+                secrets[op.args["out"]] = (op.ret.get("bn", "-"), op.ret["es"])
+        if "HS" not in secrets or "HR" not in secrets:
+            continue
+        lines = [s.header]
+        for op in s.all_ops:
+            raw = op.raw
+            if op.op == "derive_keypair":
+                lines.append(raw)
+            elif op.args.get("out") in ("HS", "HR"):
+                lines.append(raw)
+            elif op.args.get("ctx") in ("HS", "HR"):
+                bn, es = secrets[op.args["ctx"]]
+                if op.op in ("peek", "liveness", "drop"):
+                    raw += " bn=%s es=%s" % (bn, es)
+                lines.append(raw)
+        out.append("\n".join(lines) + "\nE %s\n" % s.sid)
+    return "".join(out)
 
 
 def parse_ledger(sv):
@@ -174,6 +221,7 @@ def monitor(sess, extra):
     marks = {}
     mode = "?"
     initial = {}
+    live = {}  # ctx -> {(needle name, offset): live?}
     for op in sess.ops:
         if op.ret is None:
             r.violation("C16:noreturn:%s" % op.op, "%s never returned" % op.id, sess, op)
@@ -199,8 +247,72 @@ def monitor(sess, extra):
                 continue
             r.distinct.add((sess.ids, mode, op.args["role"], "shared_secret", build))
             r.counts["scan:shared_secret"] += 1
+        elif op.op == "liveness" and op.ok():
+            r.counts["evaluations"] += 1
+            if op.ret.get("restored") != "1":
+                r.inconclusive.append("liveness probe did not restore the context's behaviour (harness problem)")
+                return r
+            d = {}
+            if op.ret["probes"] != "-":
+                for item in op.ret["probes"].split(";"):
+                    nm, rest = item.split("@")
+                    off, lv = rest.split(":")
+                    d[(nm, off)] = lv == "1"
+            live[op.args["ctx"]] = d
+            r.counts["liveness_probes"] += len(d)
+            r.counts["liveness_live_regions"] += sum(1 for v in d.values() if v)
         elif op.op == "peek" and op.ok():
             initial[op.args["ctx"]] = {"bn": op.ret["bn_at"], "es": op.ret["es_at"]}
+            r.counts["evaluations"] += 1
+            if op.ret.get("derived", "-") != "-":
+                # a transformed copy of a secret (byte-reversed, XORed with an HMAC pad, a reversed 64-bit half) sits in
+                # the live context: that is a second representation of the secret and has to be wiped like the first
+                initial[op.args["ctx"]]["derived"] = op.ret["derived"]
+        elif op.op == "drop" and op.args.get("scan") == "2":
+            r.counts["evaluations"] += 1
+            if "skip" in op.ret:
+                continue
+            hits = dict(h.split(":") for h in op.ret["heap_hits"].split(",")) if op.ret["heap_hits"] != "-" else {}
+            init = initial.get(op.args["ctx"])
+            if init is None:
+                r.inconclusive.append("no peek before the heap drop")
+                continue
+            bad = False
+            for nd, what in (("bn", "base nonce"), ("es", "exporter secret")):
+                if int(op.ret[nd + "len"]) == 0:
+                    continue
+                sighted = 0 if init[nd] == "-" else len(init[nd].split(","))
+                if sighted == 0:
+                    r.inconclusive.append("heap monitor is blind for the %s" % what)
+                    continue
+                left = int(hits.get(nd, 0))
+                if left > sighted - 1:
+                    r.violation("C16:%s_left_in_freed_memory" % ("base_nonce" if nd == "bn" else "exporter_secret"),
+                                "the %s context's %s is still in its heap block when the block is handed back to the allocator (%d of %d sightings left; %s build)" % (
+                                    "sender" if op.args["role"] == "S" else "receiver", what, left, sighted, build), sess, op)
+                    bad = True
+            lv = live.get(op.args["ctx"])
+            if lv is None:
+                r.inconclusive.append("no liveness probe before the heap drop")
+                continue
+            for k, v in hits.items():
+                if "_" in k:
+                    dead = sum(1 for (nm, off), isl in lv.items() if nm == k and not isl)
+                    if int(v) > dead:
+                        r.violation("C16:transformed_copy_left_in_freed_memory:%s" % k.split("_", 1)[1],
+                                    "a transformed copy (%s) of a secret that the context actually uses (inverting it changes the context's output) is still in the heap block when it is freed (%s build)" % (k, build), sess, op)
+                        bad = True
+                else:
+                    # raw needle: beyond the general rule above, nothing that is live may remain
+                    dead = sum(1 for (nm, off), isl in lv.items() if nm == k and not isl)
+                    if int(v) > dead and int(op.ret[k + "len"]) != 0:
+                        r.violation("C16:%s_left_in_freed_memory" % ("base_nonce" if k == "bn" else "exporter_secret"),
+                                    "a copy of the %s that the context actually uses is still in its heap block when freed (%s left, %d dead sightings; %s build)" % (
+                                        "base nonce" if k == "bn" else "exporter secret", v, dead, build), sess, op)
+                        bad = True
+            if not bad:
+                r.distinct.add((sess.ids, mode, op.args["role"], "heap", build))
+                r.counts["heap_drops_clean"] += 1
         elif op.op == "drop" and op.args.get("scan") == "1":
             r.counts["evaluations"] += 1
             ret = op.ret
@@ -228,7 +340,8 @@ def monitor(sess, extra):
                         # along; one that APPEARED later was put there by an operation and is live state
                         init = initial.get(op.args["ctx"], {}).get(nd)
                         offs = ret[nd + "_pre"].split(",")
-                        late = [o for o, z in zip(offs, zeros) if z == "0" and init is not None and o not in init.split(",")]
+                        lvd = live.get(op.args["ctx"], {})
+                        late = [o for o, z in zip(offs, zeros) if z == "0" and ((init is not None and o not in init.split(",")) or lvd.get((nd, o)))]
                         if late:
                             r.violation("C16:%s_copied_and_not_wiped" % ("base_nonce" if nd == "bn" else "exporter_secret"),
                                         "the %s context (%s build) holds a copy of its %s at offset %s that was not there after setup (an operation stored it) and that survives the drop" % (
@@ -237,6 +350,16 @@ def monitor(sess, extra):
                         r.counts["stale_copies_in_dead_bytes_of_context"] += zeros.count("0")
                     r.distinct.add((sess.ids, mode, op.args["role"], what, build))
                     r.counts["scan:%s" % what.replace(" ", "_")] += 1
+            if ret.get("derived", "-") != "-":
+                for item in ret["derived"].split(";"):
+                    name, rest = item.split("@")
+                    off, wiped = rest.split(":")
+                    lvd = live.get(op.args["ctx"], {})
+                    if wiped == "0" and (lvd.get((name, off)) or (name, off) not in lvd):
+                        # live (inverting it changes the context's output) or stored after the liveness probe
+                        r.violation("C16:transformed_copy_not_wiped:%s" % name.split("_", 1)[1],
+                                    "the %s context (%s build) holds a transformed copy of a secret (%s at offset %s) that survives the drop" % (
+                                        "sender" if op.args["role"] == "S" else "receiver", build, name, off), sess, op)
             if blind:
                 r.inconclusive.append("context scan is blind for %s: not found in the context's own storage before the drop (layout change?)" % ", ".join(blind))
         elif op.op == "ledger":
@@ -275,7 +398,7 @@ def monitor(sess, extra):
     return r
 
 
-MONITORS = {"wipe": monitor}
+MONITORS = {"wipe": monitor, "ship": monitor}
 REPLAY_EXTRA = "checked"
 
 
@@ -290,12 +413,21 @@ def run(env):
     dcw, dfound = build_directed(env)
     text += dcw.text()
     env.extra_cov["directed_degenerate_secret_classes"] = dfound
+    first = None
     for b in ("checked", "fast"):
         res = env.drive("wipe", text, build=b)
         env.require_complete(res, "wipe/" + b)
+        first = first or res
         mr = env.pmap(monitor, res.sessions, extra=b, workload="wipe")
         if mr.counts["ledger_unavailable"]:
             env.inconclusive.append("drop ledger unavailable (hooks off?)")
+    ship = shipping_build_text(first.sessions)
+    res = env.drive("ship", ship, build="nohooks-fast")
+    env.require_complete(res, "ship")
+    mr = env.pmap(monitor, res.sessions, extra="nohooks-fast", workload="ship")
+    env.extra_cov["shipping_build_heap_drops"] = mr.counts["heap_drops_clean"]
+    if mr.counts["heap_drops_clean"] < 10 and not env.violations:
+        raise fw.Inconclusive("the shipping-build pass observed only %d heap drops" % mr.counts["heap_drops_clean"])
     if not env.quick():
         log = os.path.join(env.work, "memcheck.log")
         sl = "\n".join(text.split("\nS ")[0:1]) if False else text
